@@ -75,6 +75,10 @@ def _get_key_stub(l1: int = 3, l2: int = 4) -> bytes:
             + struct.pack("<iii", 361, l1, l2))
 
 
+LAST_ERROR = [""]
+LAST_CALL: list = [None]     # how to repeat the most recent exchange (-> outcome of its last call)
+
+
 def low_level(sign: bool, mangles: list[t.Optional[t.Callable[[bytes, list[bytes]], bytes]]]) -> list[str]:
     """Performs len(mangles) consecutive requests on one connection; mangles[i] rewrites reply i.
     -> outcome per call ('authentic' | 'different' | 'error'); stops at the first error."""
@@ -82,6 +86,11 @@ def low_level(sign: bool, mangles: list[t.Optional[t.Callable[[bytes, list[bytes
     from dpapi_ng._rpc import NDR64, CommandFlags, CommandPContext, ContextElement, SyncRpcClient, VerificationTrailer, bind_time_feature_negotiation
     from dpapi_ng._rpc._auth import AuthenticationProvider
 
+    def again() -> str:
+        o = low_level(sign, mangles)
+        return o[-1] if len(o) == len(mangles) or o[-1] == "error" else "error"
+
+    LAST_CALL[0] = again
     dc = _dc(sign)
     conn = refdc.Connection(dc, 49664, 1)
     history: list[bytes] = []
@@ -110,8 +119,9 @@ def low_level(sign: bool, mangles: list[t.Optional[t.Callable[[bytes, list[bytes
             outs.append("authentic" if resp.stub_data == conn.last_plain_body else "different")
         except MachineryError:
             raise
-        except (Exception, taps.Hang):  # noqa
+        except (Exception, taps.Hang) as e:  # noqa
             outs.append("error")
+            LAST_ERROR[0] = f"{type(e).__name__}: {e}"
             break
     return outs
 
@@ -198,12 +208,18 @@ def run(ctx: Ctx) -> int:
     rows: list[dict] = []
     rng = ctx.rng
 
+    redo: dict[int, t.Callable[[], str]] = {}
+
     def add(sign: bool, call: int, act: str, region: str, bit: int, out: str, level: str, detail: str = "") -> None:
         rows.append({"id": len(rows), "sign": sign, "call": call, "act": act, "region": region, "bit": bit, "out": out, "level": level, "detail": detail})
+        if LAST_CALL[0] is not None:
+            redo[len(rows) - 1] = LAST_CALL[0]
 
     # a template reply to learn the regions
     tmpl: list[bytes] = []
-    low_level(True, [lambda rep, hist: (tmpl.append(rep), rep)[1]])
+    first = low_level(True, [lambda rep, hist: (tmpl.append(rep), rep)[1]])
+    if not tmpl or first != ["authentic"]:
+        raise MachineryError(f"template exchange with the reference DC did not complete: outcomes={first} last error={LAST_ERROR[0]}")
     reg = _regions(tmpl[0])
     for sign, call, act in classes:
         pre: list = [None] * (call - 1)
@@ -256,6 +272,7 @@ def run(ctx: Ctx) -> int:
             for action in ("pass", "strip", "inject_clear_seed", "inject_clear_pub", "inject_bogus_trailer_seed", "inject_bogus_trailer_pub", "fault"):
                 for flavour in ("sync", "async"):
                     out, detail = api_level(op, sign, action, flavour)
+                    LAST_CALL[0] = lambda op=op, sign=sign, action=action, flavour=flavour: api_level(op, sign, action, flavour)[0]
                     act = "pass" if action == "pass" else ("strip" if action == "strip" else ("inject_bogus_trailer" if "bogus" in action else "inject_clear"))
                     add(sign, 1, act, "none", -1, out, f"api:{op}:{flavour}:{action}", detail)
                     ctx.distinct((op, sign, action, flavour))
@@ -264,8 +281,15 @@ def run(ctx: Ctx) -> int:
     bad, _ = validate(ctx, "TraceSeal", "TraceSeal.cfg", slim, chunk=4000, what="seal")
     for i, clauses in bad.items():
         r_ = rows[i]
+        # the exchange is scripted end to end, so the library's outcome is a function of the case: a rejected case is
+        # executed twice more and reported only when the outcome reproduces (anything else is noise of the harness)
+        again_ = [redo[i]() for _ in range(2)] if i in redo else [r_["out"]] * 2
+        if any(o != r_["out"] for o in again_):
+            ctx.note_drift("outcome_not_reproducible_on_reexecution")
+            if sum(o == r_["out"] for o in again_) == 0:
+                continue
         if any(c.startswith("MACHINERY") for c in clauses):
-            raise MachineryError(f"authentic reply not accepted: {r_}")
+            raise MachineryError(f"authentic reply not accepted: {r_} last error={LAST_ERROR[0]}")
         ctx.violation(f"seal:{clauses[0]}:{r_['act']}:{r_['region']}:{'sign' if r_['sign'] else 'nosign'}:{r_['level'].split(':')[0]}", ",".join(clauses), r_,
                       f"header signing {r_['sign']}, call {r_['call']}, adversary {r_['act']} {r_['region']} bit {r_['bit']} ({r_['level']}): client outcome {r_['out']} {r_['detail']}")
     for r_ in rows[:2] + rows[-2:]:
